@@ -151,6 +151,9 @@ Fixpoint std_guard (t : G.gty) : bool :=
   | _ => negb (wrapped_union t)
   end.
 
+(* should_unwrap: no qualifier hidden behind a NewType / alias *)
+Definition su_guard (c : G.gty) : bool := negb (is_wrapper c && is_final (wcore c)).
+
 (* a ForwardRef whose text starts with "Literal" counts as a literal for inspection.isliteral *)
 Definition ref_literal (t : G.gty) : bool :=
   match t with G.GRef a _ => I.prefixb "Literal" a | _ => false end.
@@ -281,3 +284,130 @@ Definition base_ok (T : I.tables) (Nm : names) : bool :=
   && negb (I.mem_ity (I.ISpecial I.SLiteral) (I.t_unresolvable T))
   && negb (I.mem_ity (I.ISpecial I.SFinal) (I.t_unresolvable T))
   && negb (I.subclass T I.c_UnionType I.c_tuple).
+
+(* ------------------------------------------------------------------------------------------- *)
+(* finite environments: one list gives Graph's environment, the class ids and (checked) the rows  *)
+(* ------------------------------------------------------------------------------------------- *)
+Definition cenv := list (G.cname * (I.cls * G.classdef)).
+Definition env_of_cenv (cl : cenv) : G.env := G.env_of (map (fun x => (fst x, snd (snd x))) cl).
+Fixpoint ncls_of (cl : cenv) (c : G.cname) : I.cls :=
+  match cl with
+  | [] => 0%N
+  | (k, (i, _)) :: r => if Nat.eqb k c then i else ncls_of r c
+  end.
+Definition mk_names (cl : cenv) (enum deque : I.cls) (aList aDict aSeq : N) : names :=
+  {| n_cls := ncls_of cl; n_enum := enum; n_deque := deque; n_List := aList; n_Dict := aDict; n_Sequence := aSeq |}.
+
+Definition no_row (T : I.tables) (k : I.cls) : bool :=
+  match I.cinfo T k with None => true | Some _ => false end.
+(* decides [rows_ok T (mk_names cl ..) (env_of_cenv cl)]: the id 0 (every name outside the list) is unknown to the
+   tables; every listed class has a fresh id and a row that says what its definition says *)
+Definition rows_okb (T : I.tables) (cl : cenv) : bool :=
+  fresh_cls T 0%N && no_row T 0%N
+  && forallb (fun x => fresh_cls T (fst (snd x))
+                       && match I.cinfo T (fst (snd x)) with Some i => row_ok T (snd (snd x)) i | None => false end) cl.
+
+(* the rows as a function of Graph's class environment: a plain class (ancestors: itself and object) *)
+Definition class_row (k : I.cls) (d : G.classdef) : I.clsinfo :=
+  {| I.ci_supers := [k; I.c_object]; I.ci_str := class_str d; I.ci_qualname := G.cqual d;
+     I.ci_trepr := class_trepr d; I.ci_total := false; I.ci_fields := false; I.ci_annots := true;
+     I.ci_fromdict := false; I.ci_frozen := false; I.ci_abstract := false; I.ci_hash := true;
+     I.ci_cls_descr := false; I.ci_inst_descr := false; I.ci_inst_routine := false; I.ci_abcmeta := false;
+     I.ci_is_typeddict := false; I.ci_is_namedtuple := false |}.
+Definition rows_of (cl : cenv) : list (I.cls * I.clsinfo) :=
+  map (fun x => (fst (snd x), class_row (fst (snd x)) (snd (snd x)))) cl.
+Definition ext (T : I.tables) (rows : list (I.cls * I.clsinfo)) : I.tables :=
+  {| I.t_cls := rows ++ I.t_cls T; I.t_talias := I.t_talias T; I.t_generic_map := I.t_generic_map T;
+     I.t_builtin := I.t_builtin T; I.t_stdlib := I.t_stdlib T; I.t_unresolvable := I.t_unresolvable T;
+     I.t_collections := I.t_collections T; I.t_mapping_types := I.t_mapping_types T; I.t_abcs := I.t_abcs T |}.
+
+(* ------------------------------------------------------------------------------------------- *)
+(* the per-run stream: answers of the live inspection functions on an annotation object, compared  *)
+(* with Graph.v's local copy AND with Inspect.v on the translated annotation                       *)
+(* ------------------------------------------------------------------------------------------- *)
+Record obs := {
+  o_unwrap : option G.gty;            (* inspection.unwrap(t), described in Graph's language; None: not describable *)
+  o_args : option (list G.gty);       (* inspection.args(t) *)
+  o_sub : bool;                       (* issubscriptedgeneric *)
+  o_std : bool;                       (* isstdlibtype *)
+  o_struct : bool;                    (* isstructuredtype *)
+  o_union : bool;                     (* isuniontype *)
+  o_lit : bool;                       (* isliteral *)
+  o_ref : bool;                       (* isforwardref *)
+  o_su : bool;                        (* should_unwrap *)
+  o_ft : bool;                        (* isfixedtupletype *)
+  o_unres : bool;                     (* isunresolvable *)
+  o_qual : string;                    (* qualname *)
+  o_c17 : option I.ity                (* the SAME object as C17's own encoder describes it (None: outside its language) *)
+}.
+
+Definition res_eqb (r : I.res I.ity) (x : I.ity) : bool :=
+  match r with I.Ok y => I.ity_eqb y x | I.Raise _ => false end.
+Definition gtys_eqb (a b : list G.gty) : bool :=
+  (fix go (x y : list G.gty) : bool :=
+     match x, y with [], [] => true | u :: x', v :: y' => G.gty_eqb u v && go x' y' | _, _ => false end) a b.
+
+(* clause numbers: 1 unwrap, 2 args, 3 issubscriptedgeneric, 4 isstdlibtype, 5 isstructuredtype, 6 isuniontype,
+   7 isliteral, 8 isforwardref, 9 should_unwrap, 10 isfixedtupletype, 11 isunresolvable, 12 qualname;
+   + 100: the same clause on the Inspect side.  A clause is compared inside its guard only.
+   13: tr of C09's description of the object = C17's description of the object (one object, two encoders). *)
+Definition chk (n : nat) (guard ok : bool) : list nat := if guard && negb ok then [n] else [].
+Definition check_obs (T : I.tables) (Nm : names) (E : G.env) (t : G.gty) (o : obs) : list nat :=
+  let x := tr Nm t in
+  let gw := plain t in
+  (match o_unwrap o with
+   | Some u => chk 1 true (G.gty_eqb (G.unwrap t) u)
+               ++ chk 101 (unwrap_guard t && Nat.ltb (wsize t) 200) (res_eqb (I.unwrap T x) (tr Nm u))
+   | None => []
+   end)
+  ++ (match o_args o with
+      | Some a => chk 2 (args_guard t) (gtys_eqb (G.args_of t) a)
+                  ++ chk 102 (args_guard t) (I.itys_eqb (I.args x) (map (tr Nm) a))
+      | None => []
+      end)
+  ++ chk 3 (nobr E t) (Bool.eqb (G.is_subscripted E t) (o_sub o))
+  ++ chk 103 (nobr E t) (Bool.eqb (I.issubscriptedgeneric T x) (o_sub o))
+  ++ chk 4 (std_guard t) (Bool.eqb (G.is_stdlib t) (o_std o))
+  ++ chk 104 true (Bool.eqb (I.isstdlibtype T x) (o_std o))
+  ++ chk 5 gw (Bool.eqb (structured_g t) (o_struct o))
+  ++ chk 105 true (Bool.eqb (I.isstructuredtype T x) (o_struct o))
+  ++ chk 6 true (Bool.eqb (G.is_union (wcore t)) (o_union o))
+  ++ chk 106 true (Bool.eqb (I.isuniontype T x) (o_union o))
+  ++ chk 7 true (Bool.eqb (G.is_literal (wcore t) || ref_literal t) (o_lit o))
+  ++ chk 107 true (Bool.eqb (I.isliteral T x) (o_lit o))
+  ++ chk 8 true (Bool.eqb (G.is_ref t) (o_ref o))
+  ++ chk 108 true (Bool.eqb (I.isforwardref x) (o_ref o))
+  ++ chk 9 true (Bool.eqb (is_final (wcore t)) (o_su o))
+  ++ chk 109 true (Bool.eqb (I.should_unwrap T x) (o_su o))
+  ++ chk 10 true (Bool.eqb (G.is_fixed_tuple t || empty_tuple t) (o_ft o))
+  ++ chk 110 true (Bool.eqb (I.isfixedtupletype T x) (o_ft o))
+  ++ chk 11 true (Bool.eqb (is_ellipsis t || is_any t) (o_unres o))
+  ++ chk 111 true (Bool.eqb (I.isunresolvable T x) (o_unres o))
+  ++ chk 12 (qual_guard E t) (String.eqb (G.qualname E t) (o_qual o))
+  ++ chk 112 (qual_guard E t) (String.eqb (I.qualname T x) (o_qual o))
+  ++ match o_c17 o with Some y => chk 13 true (I.ity_eqb x y) | None => [] end.
+
+(* one generated module: the class list, the annotations with what the implementation answered *)
+Definition gcase := (cenv * list (G.gty * obs))%type.
+(* (annotation index from 1, failing clause); (0, 200): the rows of the class list are not accepted *)
+Definition case_fails (T : I.tables) (enum deque : I.cls) (aList aDict aSeq : N) (c : gcase) : list (nat * nat) :=
+  let Nm := mk_names (fst c) enum deque aList aDict aSeq in
+  let E := env_of_cenv (fst c) in
+  (if rows_okb T (fst c) then [] else [(0, 200)])
+  ++ (fix go (i : nat) (l : list (G.gty * obs)) : list (nat * nat) :=
+        match l with
+        | [] => []
+        | (t, o) :: r => map (fun n => (i, n)) (check_obs T Nm E t o) ++ go (S i) r
+        end) 1 (snd c).
+(* (case index from 0, annotation index, clause) *)
+Definition mismatches (T : I.tables) (enum deque : I.cls) (aList aDict aSeq : N) (cs : list gcase)
+  : list (nat * nat * nat) :=
+  (fix go (i : nat) (l : list gcase) : list (nat * nat * nat) :=
+     match l with
+     | [] => []
+     | c :: r => map (fun p => (i, fst p, snd p)) (case_fails T enum deque aList aDict aSeq c) ++ go (S i) r
+     end) 0 cs.
+(* how many (annotation, clause) pairs fall outside a guard (reported, not compared) *)
+Definition outside_count (E : G.env) (t : G.gty) : nat :=
+  (if unwrap_guard t then 0 else 1) + (if args_guard t then 0 else 1) + (if nobr E t then 0 else 1)
+  + (if std_guard t then 0 else 1) + (if plain t then 0 else 1) + (if qual_guard E t then 0 else 1).
